@@ -3,6 +3,7 @@ from __future__ import annotations
 
 from typing import TYPE_CHECKING
 
+from bqskit.ir.gates.measure import MeasurementPlaceholder
 from bqskit.ir.lang.language import LangException
 from bqskit.ir.lang.language import Language
 from bqskit.ir.lang.qasm2.parser import parse
@@ -22,8 +23,19 @@ class OPENQASM2Language(Language):
 
         source = "OPENQASM 2.0;\ninclude \"qelib1.inc\";\n"
         source += f'qreg q[{circuit.num_qudits}];\n'
+        emitted: set[str] = set()
         for gate in circuit.gate_set:
-            source += gate.get_qasm_gate_def()
+            gate_def = gate.get_qasm_gate_def()
+            if isinstance(gate, MeasurementPlaceholder):
+                # One `creg` line per register; several measurement gates
+                # usually name the same classical registers.
+                blocks = gate_def.splitlines(keepends=True)
+            else:
+                blocks = [gate_def]
+            for block in blocks:
+                if block not in emitted:
+                    emitted.add(block)
+                    source += block
 
         for op in circuit:
             source += op.get_qasm()
